@@ -8,9 +8,14 @@ PROP = {
         "GunYu.Props.C08.reopen_snapshot_aligned",
         "GunYu.Props.C08.tmp_snapshot_not_offered",
         "GunYu.Props.C08.snapshot_committed_only_when_complete",
+        "GunYu.Props.C08.crash_snapshot_complete",
+        "GunYu.Props.C08.script_ops_true",
+        "GunYu.Props.C08.crash_bytes_true",
         "GunYu.Props.C08.reopen_bytes_true",
         "GunYu.Props.C08.crash_images_truthful",
         "GunYu.Props.C08.crc_mismatch_refused",
+        "GunYu.Props.C08.corrupt_segment_never_served",
+        "GunYu.Props.C08.altered_crc_refused",
         "GunYu.Props.C08.closed_segment_verifies",
         "GunYu.Props.C08.altered_data_accepted_iff",
         "GunYu.Props.C08.altered_size_refused",
@@ -20,45 +25,78 @@ PROP = {
         {"name": "C08", "pkg": "./pkg/store/", "test": "TestVerifC08"},
     ],
     "driver": "drv_C08",
-    "rule": "scripts of writer-level operations (snapshot writers complete/cut short, stream writers with chunks of any size "
-            "crossing the rotation limit 24..64, writer close/replacement, collector passes with size limits, new snapshots over "
-            "existing data) with bytes from a per-case source function; the REAL RdbWriter/AofRotater/resetDataSet/gcLogs run in a "
-            "child process under strace; the file-level syscalls on the cache directory (create/append/header rewrite/rename/remove) "
-            "are (1) compared op for op with the Lean model's scriptOps and (2) replayed prefix by prefix (every instant the process "
-            "could have died) plus each multi-byte write torn at 1, n/2, n-1 bytes into fresh directories that the real "
-            "NewStorer/SetRunId/GetReader re-open with verification off and on; range, snapshot, validity of the offsets around every "
-            "boundary and every byte read are compared with the model and, independently, with the source bytes; (3) each closed "
-            "segment of the final image is altered (data bit, recorded size, recorded crc, truncated, extended) and re-opened with "
-            "verification. distinct_nontrivial = distinct directory images re-opened",
+    "rule": "scripts of writer-level operations (snapshot writers: complete, cut short and closed, a chunk received but the writer "
+            "stopped before writing it, a chunk whose file write fails — last or middle chunk; stream writers with chunks of any size "
+            "crossing the rotation limit 24..64, short writes (RLIMIT_FSIZE: only the first k bytes of a chunk reach the file, then the "
+            "writer ends), writer close/replacement, collector passes with size limits, new snapshots over existing data) with bytes from "
+            "a per-case source function, plus per run at least one production-size script (rotation limit > 3 x 4096, snapshot > 3 x 8192 "
+            "with a valid CRC64 footer, so every 4096/8192-byte loop of the code runs several iterations); two thirds of all snapshots "
+            "carry a valid checksum footer (a verifying reader accepts them). The REAL RdbWriter/AofRotater/resetDataSet/gcLogs run in a "
+            "child process under strace; the file-level syscalls on the cache directory (create/append/header rewrite/rename/remove; "
+            "short writes cut to the returned length) are (1) compared op for op with the Lean model's scriptOps and (2) replayed prefix "
+            "by prefix (every instant the process could have died) plus each multi-byte write torn at 1, n/2, n-1 bytes into fresh "
+            "directories that the real NewStorer/SetRunId/GetReader re-open with verification off and on (every prefix); range, snapshot, "
+            "validity of the offsets around every boundary, every stream byte read and every snapshot byte read through the real "
+            "RdbReader are compared with the model and, independently, with the source bytes; (3) each closed segment of the final image "
+            "is altered (data bit anywhere, data bit in the last 4 KiB piece, recorded size, recorded crc, truncated, extended) and each "
+            "footer-carrying snapshot (data bit, last piece, footer) and re-opened with verification; (4) random subsets of the final "
+            "image (os.RemoveAll order is not lexical) are re-opened; (5) life after the restart (monitor only): the real writer resumes at "
+            "LatestOffset on the re-opened Storer, appends, the collector runs with a small limit, a write fails (descriptor closed), the "
+            "process dies again and is re-opened, the replication id changes (directory renamed by SetRunId), VerifyRunId finds it "
+            "among several ids, DelRunId deletes it and fresh processes must find nothing; at RUNTIME after a short write the reported "
+            "range must equal the bytes in the files. distinct_nontrivial = distinct directory images re-opened",
     "trusted": [
-        "strace's rendering of the syscalls and the harness' parser of it (harness/overlay/pkg/store/vf_c08_test.go)",
+        "strace's rendering of the syscalls and the harness' parser of it (harness/overlay/pkg/store/vf_c08_test.go; the filter is "
+        "openat/write/lseek/close/rename*/unlink*: a change of the code to pwrite/ftruncate would not be parsed — a sanity check compares "
+        "the bytes the script feeds with the bytes the parsed trace shows and fails the run on a mismatch)",
         "process-death semantics of the file system: a crash leaves a prefix of the issued syscalls, the last write possibly torn "
         "(power-loss reordering of unsynced writes is outside the property)",
-        "file-name classification (strconv.ParseInt / ParseRdbFile on names the writers produce) is done by the driver, not the model",
+        "file-name classification (strconv.ParseInt / ParseRdbFile on names the writers produce) is done by the driver, not the model "
+        "(the model's names are an inductive type; the second conjunct of tmp_snapshot_not_offered is therefore definitional)",
         "CRC64 detects every burst error of at most 64 bits (standard CRC fact; the theorems say: accepted only if length equal and CRC64 collides)",
     ],
     "assumptions": [
         "syscall-level tie chosen over directory snapshots: strace works in the sandbox, so every syscall prefix of the real writers is a crash image (no hooks)",
-        "one replication id per script (DelRunId's os.RemoveAll order and directory renames are not part of the crash scripts)",
+        "SrcOk (hypothesis of script_ops_true / crash_bytes_true): the chunks handed to the stream writer are the source's bytes at the "
+        "offsets they are appended at — that the CALLERS hand over what they received is C05 (pipe/ingest, harness C05chan) and C06",
+        "the crash scripts of the model use one replication id; the id-level operations (rename on id change, VerifyRunId among several "
+        "ids, DelRunId, any subset of files surviving a RemoveAll) are exercised on the real code with the monitor only, not modelled",
         "CRC64 table regenerated from pkg/digest/crc64.go each run (Gen/Crc64Table.lean)",
     ],
     "partial": [
-        "crash_images_truthful is proved for every operation list whose operations are each truthful (OpTrue) where applied, for every "
-        "prefix and torn last append; that the writers' own operation lists (scriptOps) satisfy OpTrue for every script is tied by the "
-        "syscall-level correspondence + monitor, not proved as a theorem",
+        "crash_bytes_true / crash_snapshot_complete quantify over the MODEL's scriptOps (all scripts, all crash instants, all torn lengths); "
+        "that the real writers issue exactly these file operations is the syscall-level correspondence, not a theorem",
+        "the model tears appends only; a torn 16-byte header rewrite is not a model crash image (harmless for truth: the header is unused "
+        "without verification and refused with it) — the harness does tear header writes (every multi-byte write) and re-opens them",
+        "snapshot CONTENT has no theorem (FsTrue constrains stream files): crash_snapshot_complete proves the offered file has the announced "
+        "length; that its bytes are the bytes received is checked by the monitor on every image (snapshot-bytes-wrong, read through RdbReader)",
+        "stream-side faults: short writes are modelled and injected; a failing header rewrite at close, a failing open at rotation and failing "
+        "os.Remove calls are NOT injected (review mutation 8 — close observer called or not after a failed header write — stays uncaught; "
+        "its effect is on the runtime index, not on what a re-opened cache serves)",
+        "the files initDataSet unlinks at re-opening (Reopened.removed in the model) are not compared with the real unlinks (property-neutral: "
+        "a surviving cut file is cut again at the next re-opening); no bridge lemma to C06's CacheOK/CacheWF",
         "crc_mismatch_refused for arbitrary alterations is 'refused unless length equal and CRC64 collides' (altered_data_accepted_iff); "
-        "the burst-error detection property of CRC64 itself is not re-proved",
+        "the burst-error detection property of CRC64 itself is not re-proved; the version/reserved header bytes are checked by neither code nor model",
+        "read() ignores tryReadNextFile's error: a corrupt NEXT segment ends the reader with os.ErrInvalid, not ErrCorrupted (the caller only drops "
+        "the cache on ErrCorrupted) — a refusal either way, outside the property's wording",
     ],
 }
 
 MANIFEST = {
     "text": "Lean theorems about re-opening ANY directory image (reopen = initDataSet + repaired TruncateGap): indexed segments are contiguous and "
             "cover the reported range, older segments behind a gap are discarded together with the snapshot, an offered snapshot is a committed "
-            "file aligned with the first segment (temporary files never offered; the committed name is given only in the step that writes the last "
-            "byte), every byte served from a truthful directory is the source's byte at that offset, truthfulness survives every crash prefix with a "
-            "torn last append, and checksum verification refuses any altered closed segment unless length is equal and CRC64 collides. Tie: the real "
-            "writers run under strace; the syscall list is compared with the model and every prefix / torn write is re-opened by the real code.",
+            "file aligned with the first segment (temporary files never offered). UNCONDITIONAL over all writer scripts respecting the callers' "
+            "protocol, all crash instants and torn lengths: an offered snapshot holds exactly the announced number of bytes "
+            "(crash_snapshot_complete) and every byte a reader of the re-opened cache delivers is the source's byte at that offset "
+            "(script_ops_true + crash_bytes_true; hypothesis: the chunks appended are the source's bytes). Checksum verification: no byte at or "
+            "beyond a failing segment is delivered wherever it is in the chain, an altered recorded CRC or size is refused, altered data is "
+            "accepted only if length is equal and CRC64 collides. Tie: the real writers run under strace (incl. production-size segments and "
+            "snapshots, short writes, write faults on the snapshot side); the syscall list is compared with the model and every prefix / torn "
+            "write / alteration / random subset is re-opened by the real code; resumed writers, collector, second crash, id change and DelRunId "
+            "are monitored on the real code.",
     "note": "trusted: Lean kernel, strace + trace parser, process-death (not power-loss) file-system semantics, name classification in the driver; "
-            "partial: OpTrue of the writers' own scripts tied by correspondence, CRC burst detection not re-proved. D15 fixed (9091dc9).",
-    "technique": "Lean 4 proof (structural induction over arbitrary directory images and operation lists) + syscall-trace correspondence (strace) with exhaustive crash-prefix replay",
+            "partial: real-writers-issue-scriptOps is correspondence not theorem, snapshot content by monitor only, header-rewrite/rotation-open/"
+            "remove faults not injected, CRC burst detection not re-proved. D15 fixed (9091dc9).",
+    "technique": "Lean 4 proof (structural induction over arbitrary directory images, operation lists and writer scripts with a file-level invariant) + "
+                 "syscall-trace correspondence (strace) with exhaustive crash-prefix replay",
 }
